@@ -449,9 +449,6 @@ class TcpConn:
         self.tag = sock.tag
 
     # ---- client side, called by FakeSocket
-    def tx_window_open(self) -> bool:
-        return True
-
     def client_send(self, bufs: List[bytes]) -> int:
         sim = self.sim
         if self.rx_rst:
